@@ -163,11 +163,7 @@ class OverflowAction(Contract):
             v = [D.int('r%d' % i, -2**62, 2**62) for i in range(n)]
         elif c == 'objint':
             v = [D.int('r%d' % i) for i in range(n)]
-            if n > 1:
-                # documented out-of-domain region (DESIGN section 6): utils.int_array re-infers the dtype of
-                # an object array; a mix of [2^63, 2^64) and negative values becomes float64 there.
-                neg = Or(*[M(x) < 0 for x in v]); big = Or(*[And(M(x) >= 2**63, M(x) < 2**64) for x in v])
-                D.assume(Not(And(neg, big)))
+            assume_no_int64_uint64_mix(D, v)
         else:
             v = [D.real('r%d' % i) for i in range(n)]
         return {'r': v, 'st': sym_status(D)}
@@ -236,3 +232,157 @@ class OverflowAction(Contract):
                 return P.arr([as_float(e) for e in el], dtype='float64', shape=a.shape)
             return P.arr(el, dtype='int64', shape=a.shape)
         return {(P.Fxp, '_overflow_action'): _overflow_action}
+
+
+# ==========================================================================================================
+def rel_round(c, r, rule):
+    """C05 direction/error relations between the stored code c and the exact scaled input r = v*2^n_frac,
+    written WITHOUT the reference quantizer."""
+    half = Fraction(1, 2)
+    d = c - r
+    out = {'err_lt_lsb': And(d < 1, d > -1)}
+    if rule == 'floor':
+        out['dir'] = And(c <= r, r < c + 1)
+    elif rule == 'ceil':
+        out['dir'] = And(c - 1 < r, r <= c)
+    elif rule in ('trunc', 'fix'):
+        out['dir'] = And(Implies(r >= 0, And(c >= 0, c <= r, r < c + 1)),
+                         Implies(r <= 0, And(c <= 0, c >= r, r > c - 1)))
+    elif rule == 'around':
+        out['dir'] = And(d <= half, d >= -half,
+                         Implies(Or(eq(d, half), eq(d, -half)), eq(mod(c, 2), 0)))
+    return out
+
+
+def expected_vdtype_is_float(cfg):
+    return None
+
+
+@contract
+class SetVal(Contract):
+    """Fxp.set_val(val, raw, vdtype, index) on an arbitrary well-formed object:
+       code_i = OVF(ROUND(v_i * 2^n_frac)) (raw: OVF(ROUND(v_i))); flags OR-in exactly their condition;
+       callbacks once per write in the order overflow, underflow, inaccuracy, value_change; codes in range;
+       read-back = code * 2^-n_frac; with index=i only element i changes; format metadata untouched."""
+    name = 'objects:Fxp.set_val'
+    layer = 3
+    uses = ('utils:wrap', 'utils:clip', 'objects:Fxp._get_conv_factor', 'objects:Fxp._round', 'objects:Fxp._overflow_action')
+    props = {'code_eq_Q': ['C01', 'C03', 'C10'], 'in_range': ['C02'], 'readback': ['C01', 'C16'],
+             'flag_overflow': ['C04'], 'flag_underflow': ['C04'], 'flag_inaccuracy': ['C04'], 'log': ['C04'],
+             'dir': ['C05'], 'err_lt_lsb': ['C05'], 'idem_code': ['C05'], 'idem_flags': ['C05'], 'idem_log': ['C05'],
+             'frame': ['C02', 'C20'], 'val_dtype': ['C02'], 'shape': ['C10', 'C01'], 'others_unchanged': ['C01'],
+             'dtype_str': ['C02'], 'no_exception': ['C01'], 'returns_self': ['C01']}
+
+    def formats(self, tier):
+        if tier == 'quick':
+            return core_formats('quick')
+        return core_formats('thorough')
+
+    def configs(self, tier):
+        fm = self.formats(tier)
+        small = [(s, n, f) for (s, n, f) in core_formats('quick') if n in (1, 3, 8, 52)]
+        for (signed, n, f) in fm:
+            for (rule, mode) in MODES:
+                yield dict(signed=signed, n_word=n, n_frac=f, rule=rule, mode=mode, carrier='pyfloat', shape=[], raw=False, index=None)
+                yield dict(signed=signed, n_word=n, n_frac=f, rule=rule, mode=mode, carrier='f64', shape=[2], raw=False, index=None)
+        for (signed, n, f) in small:
+            for (rule, mode) in MODES:
+                for carrier, shape in (('pyint', []), ('i64', [2]), ('f64', [3]), ('f64', [2, 2]), ('list', [2]), ('code', []), ('code', [2])):
+                    yield dict(signed=signed, n_word=n, n_frac=f, rule=rule, mode=mode, carrier=carrier, shape=shape, raw=False, index=None)
+                yield dict(signed=signed, n_word=n, n_frac=f, rule=rule, mode=mode, carrier='pyint', shape=[], raw=True, index=None)
+                yield dict(signed=signed, n_word=n, n_frac=f, rule=rule, mode=mode, carrier='i64', shape=[2], raw=True, index=None)
+                yield dict(signed=signed, n_word=n, n_frac=f, rule=rule, mode=mode, carrier='pyfloat', shape=[], raw=False, index=1)
+                yield dict(signed=signed, n_word=n, n_frac=f, rule=rule, mode=mode, carrier='pyfloat', shape=[], raw=True, index=None)
+
+    def inputs(self, cfg, D):
+        n = nelem(cfg['shape'])
+        f = cfg['n_frac']
+        c = cfg['carrier']
+        lim = min(Fraction(2**53), Fraction(2**62) * pow2(-f)) if not cfg['raw'] else Fraction(2**53)
+        if c in ('pyfloat', 'f64', 'list'):
+            v = [D.real('v%d' % i, -lim, lim, True, True) for i in range(n)]
+        elif c in ('pyint', 'i64'):
+            li = int(lim) if lim == int(lim) else int(lim) + 1
+            v = [D.int('v%d' % i, -li + 1, li - 1) for i in range(n)]
+        else:   # 'code': a value representable in the format, v = c * 2^-f
+            cs = codes_in(D, 'c', n, cfg['signed'], cfg['n_word'])
+            v = [float_of_code(x, f) for x in cs]
+            return {'v': v, 'codes': cs, 'st': sym_status(D), 'old': codes_in(D, 'o', 3, cfg['signed'], cfg['n_word'])}
+        return {'v': v, 'st': sym_status(D), 'old': codes_in(D, 'o', 3, cfg['signed'], cfg['n_word'])}
+
+    def run(self, cfg, P, inp):
+        cb = RecCallback()
+        pre_shape = (3,) if cfg['index'] is not None else ()
+        old = inp['old'][:nelem(pre_shape)]
+        x = make_fxp(P, cfg['signed'], cfg['n_word'], cfg['n_frac'], codes=old, shape=pre_shape,
+                     cfg={'rounding': cfg['rule'], 'overflow': cfg['mode']}, status=inp['st'], callbacks=[cb], vdtype=float)
+        before = dict(x.__dict__)
+        cfg_before = dict(x.config.__dict__)
+        c = cfg['carrier']
+        v = inp['v']
+        if c in ('pyfloat', 'pyint') or (c == 'code' and cfg['shape'] == []):
+            val = v[0]
+        elif c == 'list':
+            val = list(v)
+        else:
+            val = P.arr(v, dtype={'f64': 'float64', 'i64': 'int64', 'code': 'float64'}[c], shape=tuple(cfg['shape']))
+        kw = {}
+        if cfg['raw']: kw['raw'] = True
+        if cfg['index'] is not None: kw['index'] = cfg['index']
+        r = x.set_val(val, **kw)
+        frame_ok = all(x.__dict__[k] is before[k] for k in before if k not in ('val', 'real', 'imag', 'vdtype', '_dtype', 'scaled', 'status')) \
+            and set(x.__dict__) == set(before) and x.config.__dict__ == cfg_before and x.status is before['status']
+        o = obs_fxp(x)
+        o.update(getval=x.get_val(), log=list(cb.log), frame_ok=frame_ok, returns_self=r is x)
+        return o
+
+    def post(self, cfg, inp, obs):
+        if obs['exc']:
+            return {}
+        signed, n, f, rule, mode, raw = cfg['signed'], cfg['n_word'], cfg['n_frac'], cfg['rule'], cfg['mode'], cfg['raw']
+        lo, hi = range_of(signed, n)
+        vs = [M(v) for v in inp['v']]
+        codes = [M(c) for c in elems(obs['val'])]
+        gv = [M(g) for g in elems(obs['getval'])]
+        out = {'frame': obs['frame_ok'], 'returns_self': obs['returns_self'],
+               'val_dtype': obs['val'].dtype == store_dtype(signed, n),
+               'dtype_str': obs['dtype'] == fmt_str(signed, n, f)}
+        idx = cfg['index']
+        if idx is None:
+            out['shape'] = list(obs['val'].shape) == cfg['shape']
+            written = list(range(len(codes)))
+        else:
+            out['shape'] = list(obs['val'].shape) == [3]
+            written = [idx]
+            olds = [M(o) for o in inp['old']]
+            out['others_unchanged'] = And(*[eq(codes[j], olds[j]) for j in range(3) if j != idx])
+        k = 0 if raw else f
+        rs = [scale2(v, k) for v in vs]                       # exact scaled inputs
+        Rs = [ROUND(r, rule) for r in rs]                      # rounded, before overflow handling
+        for j, i in enumerate(written):
+            c = codes[i]
+            out['code_eq_Q[%d]' % j] = eq(c, OVF(Rs[j], signed, n, mode))
+            out['in_range[%d]' % j] = And(c >= lo, c <= hi)
+            out['readback[%d]' % j] = eq(gv[i], scale2(c, -f))
+            # C05 relations, oracle-free, for inputs inside the representable span
+            inside = And(rs[j] >= lo, rs[j] <= hi)
+            for nm, cl in rel_round(c, rs[j], rule).items():
+                out['%s[%d]' % (nm, j)] = Implies(inside, cl)
+        any_hi = Or(*[R > hi for R in Rs])
+        any_lo = Or(*[R < lo for R in Rs])
+        inexact = Or(*[Not(eq(scale2(codes[i], -k), vs[j])) for j, i in enumerate(written)])
+        st0, st1 = inp['st'], obs['status']
+        out['flag_overflow'] = Iff(B(st1['overflow']), Or(B(st0['overflow']), any_hi))
+        out['flag_underflow'] = Iff(B(st1['underflow']), Or(B(st0['underflow']), any_lo))
+        out['flag_inaccuracy'] = Iff(B(st1['inaccuracy']), Or(B(st0['inaccuracy']), inexact))
+        log = obs['log']
+        order = [e for e in ('overflow', 'underflow', 'inaccuracy', 'value_change') if e in log]
+        out['log'] = And(log == order, 'value_change' in log, Iff('overflow' in log, any_hi),
+                         Iff('underflow' in log, any_lo), Iff('inaccuracy' in log, inexact))
+        if cfg['carrier'] == 'code':
+            cs = [M(c) for c in inp['codes']]
+            out['idem_code'] = And(*[eq(codes[i], cs[i]) for i in range(len(cs))])
+            out['idem_flags'] = And(Iff(B(st1['overflow']), B(st0['overflow'])), Iff(B(st1['underflow']), B(st0['underflow'])),
+                                    Iff(B(st1['inaccuracy']), B(st0['inaccuracy'])))
+            out['idem_log'] = log == ['value_change']
+        return out
